@@ -103,6 +103,10 @@ func (ix idx) text(k int) string {
 			es = append(es, fmt.Sprintf("%s %d", el, i))
 		}
 		v = "<" + strings.Join(es, ", ") + ">"
+	case "elemundef":
+		v = fmt.Sprintf("<%s undef, %s 1>", el, el)
+	case "elemcexpr":
+		v = fmt.Sprintf("<%s ptrtoint (i8* @h to %s), %s 0>", el, el, el)
 	case "cexpr":
 		if ix.Vec > 0 {
 			var es []string
@@ -346,6 +350,10 @@ func (e *env) objects(c *gcase) *objects {
 				es = append(es, constant.NewInt(it, v))
 			}
 			cst = constant.NewVector(ty.(*types.VectorType), es...)
+		case "elemundef":
+			cst = constant.NewVector(ty.(*types.VectorType), constant.NewUndef(it), constant.NewInt(it, 1))
+		case "elemcexpr":
+			cst = constant.NewVector(ty.(*types.VectorType), constant.NewPtrToInt(o.h, it), constant.NewInt(it, 0))
 		case "cexpr":
 			if ix.Vec > 0 {
 				var es []constant.Constant
